@@ -51,32 +51,92 @@ ALL_CLASSES = ("host-node", "computer", "printer", "server", "router", "switch",
 NIC_KIND = {"NIC": "i", "RouterInterface": "i", "SwitchPort": "s", "WirelessAccessPoint": "w"}
 
 
-def cls_case(cls: str, up: int, down: int, ops: List[dict]) -> dict:
+N_PORTS = {"switch": 4, "router": 3, "firewall": 3}
+FW_PORT_NAME = {1: "external_port", 2: "internal_port", 3: "dmz_port"}
+
+
+def layouts(cls: str) -> List[Tuple[int, int]]:
+    """round 7: every way to put the two peers A and B on two different ports of the node under test (ordered pairs), so that
+    interfaces that cannot come up (nothing plugged in) sit before, between and behind the linked ones in port order"""
+    if cls not in N_PORTS:
+        return [(1, 2)]
+    k = N_PORTS[cls]
+    return [(a, b) for a in range(1, k + 1) for b in range(1, k + 1) if a != b]
+
+
+def cls_case(cls: str, up: int, down: int, ops: List[dict], layout: Optional[Tuple[int, int]] = None) -> dict:
     """node 0 = the node under test (class `cls`), node 1 = computer A, node 2 = the far peer (computer B behind a switch /
     router / firewall, a second wireless router on the same frequency for a wireless router; none for a host).
-    `pings` lists, by name, (source node, target address, the interfaces a reply-and-request must cross)."""
+    `pings` lists, by name, (source node, target address, the interfaces a reply-and-request must cross).
+    `layout` = (port of A, port of B) on a switch / router / firewall (default: ports 1 and 2)."""
     x = {"cls": cls, "name": "x", "up": up, "down": down}
     a = {"cls": "computer", "name": "a", "up": 1, "down": 1, "ip": "192.168.1.2", "gw": "192.168.1.1"}
     if cls in HOST_CLASSES:
         x["ip"] = "192.168.1.3"
         nodes, links = [x, a], [[0, 1, 1, 1]]
         pings = {"to": [1, "192.168.1.3", [[1, 0], [0, 0]]], "from": [0, "192.168.1.2", [[0, 0], [1, 0]]]}
+        if layout == (0, 0):   # nothing plugged into the host's only interface: it can never come up
+            links, pings = [], {}
     elif cls == "wireless-router":
         w = {"cls": "wireless-router", "name": "w", "up": 1, "down": 1, "wr_ips": ("10.0.4.1", "10.0.3.2")}
         x["wr_ips"] = ("192.168.1.1", "10.0.3.1")  # (wired port 2, access point port 1)
         nodes, links = [x, a, w], [[0, 2, 1, 1]]
         pings = {"to": [1, "192.168.1.1", [[1, 0], [0, 1]]], "air": [2, "10.0.3.1", [[2, 0], [0, 0]]],
                  "from": [0, "10.0.3.2", [[0, 0], [2, 0]]]}
+        if layout == (0, 0):   # the wired port stays unplugged: only the access point can come up
+            links = []
+            del pings["to"]
     else:
+        pa, pb = layout or (1, 2)
         b = {"cls": "computer", "name": "b", "up": 1, "down": 1, "ip": "10.0.0.2", "gw": "10.0.0.1"}
         if cls == "switch":
             b["ip"], b["gw"] = "192.168.1.4", "192.168.1.1"
-        nodes, links = [x, a, b], [[0, 1, 1, 1], [0, 2, 2, 1]]
-        through = [[1, 0], [0, 0], [0, 1], [2, 0]]
-        pings = {"through": [1, b["ip"], through], "back": [2, "192.168.1.2", [[2, 0], [0, 1], [0, 0], [1, 0]]]}
+        else:
+            x["port_ips"] = {pa: "192.168.1.1", pb: "10.0.0.1"}
+        nodes, links = [x, a, b], [[0, pa, 1, 1], [0, pb, 2, 1]]
+        through = [[1, 0], [0, pa - 1], [0, pb - 1], [2, 0]]
+        pings = {"through": [1, b["ip"], through], "back": [2, "192.168.1.2", [[2, 0], [0, pb - 1], [0, pa - 1], [1, 0]]]}
         if cls != "switch":
-            pings["to"] = [1, "192.168.1.1", [[1, 0], [0, 0]]]
+            pings["to"] = [1, "192.168.1.1", [[1, 0], [0, pa - 1]]]
     return {"kind": "cls", "nodes": nodes, "links": links, "pings": pings, "ops": ops}
+
+
+def layout_cycle_cases(clss=("switch", "router", "firewall"), durs=((0, 0), (2, 1), (0, 2), (1, 0))) -> List[dict]:
+    """round 7 (seeded C12-g): a whole power cycle (shutdown + start-up, or a reset) of a node with several interfaces, for
+    EVERY placement of the two links on its ports, optionally after one interface was disabled by request (first linked port,
+    an unlinked port). Afterwards exactly the interfaces that can come up must be up (oracle `interface-down-after-return-to-on`
+    and the model's state) and pings must cross the node in both directions."""
+    out = []
+    for cls in tuple(clss) + tuple(HOST_CLASSES) + ("wireless-router",):
+        if cls in N_PORTS:
+            lays = layouts(cls)
+        else:
+            lays = [(1, 2), (0, 0)]      # plugged in / nothing plugged in
+        for lay in lays:
+            if cls in N_PORTS:
+                pres = (None, lay[0], [q for q in range(1, N_PORTS[cls] + 1) if q not in lay][0])
+            elif cls == "wireless-router":
+                pres = (None, 2)         # the wired port (requests to the access point raise: F-2, C05/C16)
+            else:
+                pres = (None, 1)
+            for (up, down) in durs:
+                for mode in ("cycle", "reset"):
+                    for pre in pres:
+                        ops: List[dict] = []
+                        if pre is not None:
+                            ops.append({"op": "req", "node": 0, "key": "network_interface", "nic": pre, "verb": "disable"})
+                        if mode == "reset":
+                            ops.append({"op": "req", "node": 0, "key": "reset"})
+                            ops += [{"op": "tick"}] * (max(down, 0) + max(up, 0) + 2)
+                        else:
+                            ops.append({"op": "req", "node": 0, "key": "shutdown"})
+                            ops += [{"op": "tick"}] * (max(down, 0) + 1)
+                            ops.append({"op": "req", "node": 0, "key": "startup"})
+                            ops += [{"op": "tick"}] * (max(up, 0) + 1)
+                        case = cls_case(cls, up, down, ops, layout=lay)
+                        case["ops"] += [{"op": "pingpath", "name": nm} for nm in case["pings"]]
+                        out.append(case)
+    return out
 
 
 def cls_other_request(cls: str) -> dict:
@@ -137,7 +197,7 @@ def gen_random_cls(rng: Rng, max_ops: int, cls: Optional[str] = None, api: bool 
     """random sequence on the class topology; with `api`, direct API calls and run-time duration changes are mixed in (then the
     legal-moves claim no longer applies — the invariants and the model agreement still do)"""
     cls = cls or rng.choice(list(ALL_CLASSES))
-    case = cls_case(cls, rng.choice(DUR_POOL), rng.choice(DUR_POOL), [])
+    case = cls_case(cls, rng.choice(DUR_POOL), rng.choice(DUR_POOL), [], layout=rng.choice(layouts(cls)))
     names = list(case["pings"])
     ops, uniq = [], [0]
     for _ in range(rng.range(5, max_ops)):
@@ -669,14 +729,16 @@ def build(case: dict):
         elif c == "switch":
             n = Switch.from_config({"type": "switch", "num_ports": 4, **d})
         elif c == "router":
+            pips = spec.get("port_ips") or {1: "192.168.1.1", 2: "10.0.0.1"}
             n = Router.from_config({"type": "router", "num_ports": 3, "ports": {
-                1: {"ip_address": "192.168.1.1", "subnet_mask": "255.255.255.0"},
-                2: {"ip_address": "10.0.0.1", "subnet_mask": "255.255.255.0"}}, **d})
+                int(q): {"ip_address": ip, "subnet_mask": "255.255.255.0"} for q, ip in sorted(pips.items(), key=lambda kv: int(kv[0]))}, **d})
         elif c == "firewall":
             if case["kind"] == "cls":   # external port towards A, internal port towards B, every ACL lets ARP and ICMP through
-                n = Firewall.from_config({"type": "firewall", "ports": {
-                    "external_port": {"ip_address": "192.168.1.1", "subnet_mask": "255.255.255.0"},
-                    "internal_port": {"ip_address": "10.0.0.1", "subnet_mask": "255.255.255.0"}},
+                pips = {int(q): ip for q, ip in (spec.get("port_ips") or {1: "192.168.1.1", 2: "10.0.0.1"}).items()}
+                spare_ip = iter(["172.16.0.1", "172.16.1.1"])   # external and internal port must be configured
+                fw_ports = {FW_PORT_NAME[q]: {"ip_address": pips.get(q) or next(spare_ip), "subnet_mask": "255.255.255.0"}
+                            for q in (1, 2, 3) if q in pips or q in (1, 2)}
+                n = Firewall.from_config({"type": "firewall", "ports": fw_ports,
                     "acl": {a: dict(fw_rule) for a in ("internal_inbound_acl", "internal_outbound_acl", "dmz_inbound_acl",
                                                        "dmz_outbound_acl", "external_inbound_acl", "external_outbound_acl")}, **d})
             else:
@@ -848,6 +910,20 @@ def run_case(case: dict) -> Tuple[List[str], List[str], List[str], Dict[str, int
                     for a in n.applications.values():
                         if a.operating_state.name == "RUNNING":
                             oracle.append(f"application-running-while-OFF|{cls_of[i]}|{a.name} after {tag}")
+
+        def back_on(i: int, tr_i: Optional[str], tag: str):
+            """independent of the model: an operation that assigned ON to the node (end of BOOTING, instant start-up, a reset
+            completing) must leave every interface that can come up (a link is plugged in / wireless) enabled"""
+            n = nodes[i]
+            if not tr_i or tr_i.split(">")[-1] != "ON" or n.operating_state != NodeOperatingState.ON:
+                return
+            toks = _nic_tokens(n)
+            down = [f"{port}" for port, tok in zip(sorted(n.network_interface), toks) if tok[1] == "1" and tok[0] == "0"]
+            probe.frame_events["back-on:" + ("all-linked-up" if not down else "linked-left-down")] = \
+                probe.frame_events.get("back-on:" + ("all-linked-up" if not down else "linked-left-down"), 0) + 1
+            if down:
+                oracle.append(f"interface-down-after-return-to-on|{cls_of[i]}|linked port(s) {','.join(down)} of {len(toks)} still disabled after {tag} "
+                              f"(interfaces {','.join(toks)})")
         if case["kind"] == "load":
             invariants("loading")
         # reference for user sessions: (node index) -> {"local": last_active or None, "remote": [last_active, ...]}
@@ -894,6 +970,7 @@ def run_case(case: dict) -> Tuple[List[str], List[str], List[str], Dict[str, int
                   for i, n in enumerate(nodes):
                       lines.append(f"tick {i} {t - 1}")
                       impl.append(f"done h={tr.get(i, '-')} w={wk.get(i, '')} {snapshot(n)} {sess_token(n)}")
+                      back_on(i, tr.get(i), f"tick {k}")
                       # oracle (independent of the model): a node that is not ON before and after the tick moved no software clock
                       if before[i] != NodeOperatingState.ON and n.operating_state != NodeOperatingState.ON and _clocks(n) != clocks[i]:
                           oracle.append(f"software-clock-moved-while-not-on|{cls_of[i]}|{clocks[i]} -> {_clocks(n)} in tick {k}")
@@ -927,6 +1004,7 @@ def run_case(case: dict) -> Tuple[List[str], List[str], List[str], Dict[str, int
                   tr = traces()
                   lines.append(f"req {i} {key} {sub}")
                   impl.append(f"{status} h={tr.get(i, '-')} {snapshot(n)}")
+                  back_on(i, tr.get(i), f"request {key}")
                   for j, m in enumerate(nodes):  # nothing may happen to the other nodes' power state
                       if j != i and j in tr:
                           oracle.append(f"foreign-state-change|{cls_of[j]}|{tr[j]} during request to node {i}")
